@@ -480,8 +480,18 @@ def _range_incl_contains(ex, st, args, dest_ty, func, where):
     return VBool(simp(z3.And(r.f[0].t <= x.t, x.t <= r.f[1].t)))
 
 
+def _result_is(ex, st, args, dest_ty, func, where):
+    r = args[0]
+    while isinstance(r, VRef):
+        r = ex.deref(st, r)
+    if not isinstance(r, VEnum):
+        raise Unsupported("is_ok/is_err on %r" % (r,))
+    return VBool(simp(r.discr == (0 if func.endswith("is_ok") else 1)))
+
+
 def install_core(ex):
     A = ex.add_model
+    A(r"^(std::result::)?Result::<.*>::is_(ok|err)$", _result_is, "Result::is_ok / is_err")
     A(r"^(std::ops::)?RangeInclusive::<\w+>::new$", _range_incl_new, "RangeInclusive::new")
     A(r"^(std::ops::)?RangeInclusive::<\w+>::contains::<\w+>$", _range_incl_contains, "RangeInclusive::contains")
     A(r"^<(std::option::)?Option<(u8|u16|u32|u64|usize|i8|i16|i32|i64|isize|bool|char)> as PartialEq>::(eq|ne)$", _opt_scalar_eq, "<Option<scalar> as PartialEq>::eq")
